@@ -48,7 +48,7 @@ func whose(b []byte) string {
 	return fmt.Sprintf("unidentified (%x…)", b[:min(len(b), 16)])
 }
 
-var c07Actions = []string{"full", "full+reread", "abandon+close", "over-limit", "peer-close-mid-compressed", "peer-violation-mid-message", "ctx-expiry-mid-message", "closenow-mid-message", "backref-probe"}
+var c07Actions = []string{"full", "full+reread", "abandon+close", "over-limit", "peer-close-mid-compressed", "peer-violation-mid-message", "ctx-expiry-mid-message", "closenow-mid-message", "backref-probe", "peer-close-then-reread-earlier"}
 
 func runC07(r *Run) {
 	t := r.Tape
@@ -106,7 +106,7 @@ func runC07(r *Run) {
 			for i := 0; i < nm; i++ {
 				mp := msgPlan{n: []int{40, 200, 1000, 5000, 20000, 40000}[t.Draw(6)] + t.Draw(8), comp: t.Pct(75)}
 				mp.frags = SplitFrags(t, mp.n)
-				mp.action = t.Weighted(6, 5, 2, 1, 2, 2, 1, 2, 3)
+				mp.action = t.Weighted(6, 5, 2, 1, 2, 2, 1, 2, 3, 2)
 				mp.reread = 1 + t.Draw(3)
 				mp.j = 1 + t.Draw(mp.n)
 				mp.buf = []int{512, 7, 64, 4096, 32768}[t.Draw(5)]
@@ -186,9 +186,54 @@ func runC07(r *Run) {
 						return
 					}
 					hist := 0 // plaintext bytes a back-reference of the peer may legally reach
+					var prevRd io.Reader // the reader of the last message that was read to its end
 					for seq, mp := range cp.msgs {
 						if mp.action == 8 && (comp == nil || hist >= 32768-258) {
 							mp.action = 0
+						}
+						if mp.action == 9 && prevRd == nil {
+							mp.action = 0
+						}
+						if mp.action == 9 {
+							// The peer closes at a message boundary; the application finds out in
+							// its next Reader call. Later, while other connections are being
+							// set up and used (and have taken over whatever this one returned
+							// to the pools), something still holding the reader of the last
+							// finished message reads from it again.
+							sig := "action=" + c07Actions[9]
+							peer.Inject(peer.Encode(wsref.Frame{Fin: true, Opcode: wsref.OpClose, Payload: wsref.ClosePayload(1000, fmt.Sprintf("conn%d", cp.id))}))
+							r.S.Park("a." + who + ".msg")
+							_, _, err := c.Reader(bg)
+							if err == nil {
+								r.Violate("no-error", sig, "conn %d: Reader returned without error after the peer's Close frame", cp.id)
+								return
+							}
+							var ce websocket.CloseError
+							if errors.As(err, &ce) && ce.Reason != fmt.Sprintf("conn%d", cp.id) {
+								r.Violate("foreign-close-reason", sig, "conn %d: error carries another connection's close reason %q", cp.id, ce.Reason)
+							}
+							ghost, n := prevRd, 1+mp.reread
+							r.S.Go(fmt.Sprintf("%s.ghost%d", who, cp.id), func() {
+								gbuf := make([]byte, 4096)
+								for k := 0; k < n; k++ {
+									r.S.Park("a." + who + ".ghost")
+									if k == 1 {
+										r.S.Sleep(300 * time.Millisecond)
+									}
+									m, e := ghost.Read(gbuf)
+									if m > 0 {
+										r.Violate("bytes-after-eof", sig, "conn %d (closed by its peer): Read on the reader of its last finished message returned %d bytes (err %v); they %s", cp.id, m, e, whose(gbuf[:m]))
+										return
+									}
+									if e == nil {
+										r.Violate("nil-after-eof", sig, "conn %d (closed by its peer): Read on the reader of its last finished message returned 0, nil", cp.id)
+										return
+									}
+								}
+								r.S.Count("probe.reread-after-peer-close")
+							})
+							closed = true
+							break
 						}
 						sig := fmt.Sprintf("action=%s,compressed=%v", c07Actions[mp.action], mp.comp && comp != nil)
 						want := tagged(cp.id, 0, seq, mp.n)
@@ -349,6 +394,7 @@ func runC07(r *Run) {
 								r.Violate("message-truncated-or-failed", sig, "conn %d message %d: got %d of %d bytes, err %v", cp.id, seq, len(got), len(want), rerr)
 								return
 							}
+							prevRd = rd
 							if mp.action == 1 {
 								for k := 0; k < mp.reread; k++ {
 									if k > 0 || mp.buf > 64 {
